@@ -743,8 +743,10 @@ def splice_helper_loops(cfg, scope, repo, can_splice, max_rounds=3):
 # ------------------------------------------------------------------ the executor
 
 class SymX:
-    def __init__(self, repo, scope, assumptions=None, opaque=(), hooks=(), inline_level=0, max_steps=400000, inline=True, watch=()):
+    def __init__(self, repo, scope, assumptions=None, opaque=(), hooks=(), inline_level=0, max_steps=400000, inline=True, watch=(),
+                 inline_other=None):
         self.repo = repo
+        self.inline_other = inline_other               # predicate(scope): loop-free functions of *other* modules that may be inlined too
         self.scope = scope
         self.module = scope.module
         self.assumptions = dict(assumptions or {})     # truth key -> bool
@@ -1604,7 +1606,9 @@ class SymX:
         if scope is not None and scope.qualname in self.opaque_names:
             return False, "anchor"
         if scope is not None and scope.module is not self.module:
-            return False, "other module"
+            if self.inline_other is None or scope.qualname in self.opaque_names or not self.inline_other(scope):
+                return False, "other module"
+            return True, ""
         if _output_only(fn_node):
             return False, "output only"
         nested = scope is None or (scope.parent is not None and scope.parent.kind != "module")
